@@ -226,7 +226,7 @@ theorem decode_sequence (o : DecApi.Opts) (w : Wire.Opts) (h : Wire.Hdr) (kept :
   -- the records, by the wire-level round trip
   let tsKnown : Nat → Bool := fun m => (o.fac.create m fieldNumTimestamp).known
   have hinv : DefInv w.arch (freshEnc w).lru DecState.fresh := DefInv.fresh w.arch w.lruCap hw.capPos hw.cap16 _
-  obtain ⟨items, hdec, hall⟩ := encodeMsgs_roundtrip tsKnown w hw.arch wms (freshEnc w) DecState.fresh hfit.msgs hinv hw.cap4
+  obtain ⟨items, hdec, hall⟩ := encodeMsgs_roundtripF tsKnown w hw.arch wms (freshEnc w) DecState.fresh hfit.msgs hinv hw.cap4
     (fun _ => Or.inl rfl) (Wire.le16 (write 0 recs) ++ tail) ((recs ++ (Wire.le16 (write 0 recs) ++ tail)).length + 1)
     (by rw [hrecs]; simp; omega)
   rw [hrecs] at hdec
